@@ -119,6 +119,7 @@ def faults(res, ctx, rng):
                     res.violation('c20-fault-text', f'{label}: {text!r}', case)
                     continue
                 res.count('faults_compared')
+                retain(label, t, lambda x: (x.result, x.fault_type, x.pid, tuple(x.caller_prot or ()), str(x)))
                 if len(STREAM_CASES) < 1500:
                     STREAM_CASES.append((seq, [str(x) for x in traces], label))
                 if recs and recs[0][0] == 'purgeable':
@@ -168,6 +169,8 @@ def launches(res, ctx, rng):
             res.violation('c20-launch-mh', f'main executable {hex(t.main_executable_mh)} vs START word 1 {hex(mh)}', case)
             continue
         res.count('launches_compared')
+        retain(f'launch window with {n} image records', t,
+               lambda x: (tuple((type(i).__name__, i.uuid, i.load_addr) for i in x.uuid_map_a), str(x)))
         if i % 3 == 0:
             STREAM_CASES.append((seq, [str(x) for x in traces], f'launch window with {n} image records'))
         if len(set(addrs)) < len(addrs):
@@ -232,12 +235,34 @@ def samplers(res, ctx, rng):
             res.violation('c20-sampler-actionid', f'{label}: {t.actionid}', case)
             continue
         res.count('samplers_compared')
+        retain(label, t, lambda x: (None if x.th_info is None else (x.th_info.pid, x.th_info.tid),
+                                    None if x.cs_frames is None else tuple(x.cs_frames), tuple(x.sample_what), str(x)))
         if i % 5 == 0:
             STREAM_CASES.append((seq, [str(x) for x in traces], label))
         res.count(f'sampler_flags_{flags}_thd{int(has_thd)}_hdr{int(has_hdr)}')
 
 
 STREAM_CASES = []
+RETAINED = []     # (description, trace object, projection function, projection taken when the trace was emitted)
+
+
+def retain(desc, trace, project):
+    if len(RETAINED) < 20000:
+        RETAINED.append((desc, trace, project, project(trace)))
+
+
+def recheck_retained(res):
+    """Nothing already reported may change later: every composite trace is projected again at the end of the run."""
+    for desc, trace, project, before in RETAINED:
+        res.count('retained_traces_rechecked')
+        try:
+            now = project(trace)
+        except Exception as x:
+            now = f'<raised {x!r}>'
+        if now != before:
+            res.violation('c20-reported-trace-changed-later', f'{desc}: the trace read {str(before)[:200]} when it was emitted and '
+                          f'{str(now)[:200]} after later windows were decoded')
+            return
 
 
 def run(ctx):
@@ -247,6 +272,7 @@ def run(ctx):
     launches(res, ctx, rng)
     samplers(res, ctx, rng)
     stream.run_stream(res, 'c20', STREAM_CASES, rng, 'composite windows')
+    recheck_retained(res)
     if ctx.shard == 0:
         seq = H.page_fault(0x1000, 0, 0, 2, [H.real_fault('purgeable', 1, 3, 2, 44), H.real_fault('internal', 2, 1, 4, 45)])
         res.sample({'window': [f'{c}:{q}' for c, q, _ in seq], 'rendering': [str(t) for t in feed(seq)[1]][-1]})
@@ -260,6 +286,7 @@ def run(ctx):
     res.require('launches_with_address_ties', 1)
     res.require('samplers_compared', 50)
     res.require('stream_windows_one_thread', 20)
+    res.require('retained_traces_rechecked', 50)
     return res
 
 
